@@ -77,8 +77,9 @@ def run_unit(uname, tier, prop):
         R.undecided.append("extraction: %s" % e)
         return R
     R.uf = uf
-    os.makedirs(os.path.join(CACHE, "gen"), exist_ok=True)
-    path = os.path.join(CACHE, "gen", "%s.rs" % uname)
+    gdir = os.path.join(CACHE, "gen" + os.environ.get("VERIF_CACHE_SUFFIX", ""))
+    os.makedirs(gdir, exist_ok=True)
+    path = os.path.join(gdir, "%s.rs" % uname)
     text = uf.text()
     with open(path, "w") as f:
         f.write(text)
@@ -179,6 +180,13 @@ def run_unit(uname, tier, prop):
     # skeleton check: a failed obligation in a restructured function is undecided unless replayed
     R.skeleton_changed = []
     recorded = getattr(mod, "SKELETONS", {})
+    skp = os.path.join(ROOT, "units", uname, "skeletons.json")
+    if os.path.exists(skp):
+        try:
+            recorded = json.load(open(skp))
+        except Exception:
+            recorded = {}
+    R.skeletons_now = dict(uf.skeletons)
     for fn, h in uf.skeletons.items():
         if fn in recorded and recorded[fn] != h:
             R.skeleton_changed.append(fn)
@@ -250,6 +258,10 @@ def main():
     ap.add_argument("--tier", default=os.environ.get("VERIF_TIER", "quick"))
     ap.add_argument("--replay", default=None)
     ap.add_argument("--keep", action="store_true")
+    ap.add_argument("--raw-json", action="store_true",
+                    help="print one JSON line with the violated/undecided obligation ids; write no evidence, replay nothing")
+    ap.add_argument("--record-skeletons", action="store_true",
+                    help="record the control skeletons of the extracted functions (only when every obligation is discharged)")
     a = ap.parse_args()
     prop, tier = a.prop, a.tier
     if tier not in ("quick", "thorough"):
@@ -366,6 +378,11 @@ def main():
         undischarged = [x for x in undischarged if x not in known_ids and not any(k.startswith(x) for k in known_ids)]
         discharged = len(keep) - len(undischarged)
         obligations = keep
+    if a.raw_json:
+        print(json.dumps({"violated": sorted(set(f["obligation"] for f in viol)),
+                          "known": sorted(set(f["obligation"] for (_, f) in known_hits)),
+                          "undecided": undecided, "obligations": len(obligations)}))
+        return 0
     rc = 0
     lines = []
     replay_paths = []
@@ -385,7 +402,22 @@ def main():
         lines.append("VIOLATION property=%s replay=%s%s" % (
             prop, rp, "" if reproduced else " no-failing-input-found"))
     if rc == 0 and undecided:
-        rc = 2
+        # The verifier could not decide (lost anchor, construct outside Verus, rlimit).  The unit's
+        # candidate inputs are still replayed against the real binary: a reproduced crash or wrong
+        # result has been shown on the real code and IS a violation (DESIGN 2.6); otherwise exit 2.
+        for u in results:
+            if not u.undecided:
+                continue
+            f = {"obligation": "%s.undecided" % u.unit, "fn": None, "unit": u.unit, "repo": None,
+                 "message": "verifier undecided: " + "; ".join(u.undecided)[:400], "rendered": "\n".join(u.undecided)[:4000],
+                 "props": [prop], "skeleton_changed": True, "match_all_witnesses": True}
+            rp, reproduced = replay_mod.make_replay(ROOT, prop, f, results, tier)
+            if reproduced:
+                rc = 1
+                lines.append("VIOLATION property=%s replay=%s" % (prop, rp))
+                seen.add(f["obligation"])
+        if rc == 0:
+            rc = 2
 
     wall = time.time() - t0
     ev = {
@@ -414,6 +446,12 @@ def main():
         "wall_s": round(wall, 2),
         "violations": len(seen),
     }
+    if a.record_skeletons and rc == 0 and not viol and not known_hits:
+        for u in results:
+            if u.uf is not None:
+                with open(os.path.join(ROOT, "units", u.unit, "skeletons.json"), "w") as f:
+                    json.dump(u.skeletons_now, f, indent=1, sort_keys=True)
+                    f.write("\n")
     os.makedirs(os.path.join(ROOT, "evidence"), exist_ok=True)
     with open(os.path.join(ROOT, "evidence", "%s.json" % prop), "w") as f:
         json.dump(ev, f, indent=1, sort_keys=True)
